@@ -14,6 +14,9 @@ import multiprocessing as mp
 VERIF = os.path.dirname(os.path.dirname(os.path.dirname(os.path.abspath(__file__))))
 REPO_ROOT = os.path.realpath(os.environ.get('PMC_REPO', '/repo'))
 REPO_PKG = os.path.join(REPO_ROOT, 'pymoto')
+# PMC_OUT: where evidence/ and replays/ are written (mutant trials against a scratch worktree set it to a scratch dir,
+# registered commands never set it)
+OUT = os.environ.get('PMC_OUT', VERIF)
 CASE_TIMEOUT_S = int(os.environ.get('PMC_CASE_TIMEOUT_S', '300'))
 
 
@@ -235,7 +238,7 @@ def run_property(pid, tier, seed, nproc=None):
     nproc = nproc or int(os.environ.get('PMC_NPROC', str(min(16, os.cpu_count() or 1))))
     budget = float(os.environ.get('PMC_BUDGET_S', '600')) if tier == 'thorough' else float('inf')
     t0 = time.time()
-    rdir = os.path.join(VERIF, 'replays', pid)
+    rdir = os.path.join(OUT, 'replays', pid)
     if os.path.isdir(rdir):
         for fn in os.listdir(rdir):
             if fn.endswith('.json'):
@@ -287,7 +290,7 @@ def run_property(pid, tier, seed, nproc=None):
 
 
 def write_replay(pid, v):
-    d = os.path.join(VERIF, 'replays', pid)
+    d = os.path.join(OUT, 'replays', pid)
     os.makedirs(d, exist_ok=True)
     body = {'property': pid, 'check': v.get('check'), 'signature': v['signature'], 'case': v['case'],
             'detail': v.get('detail', {})}
@@ -373,8 +376,8 @@ def finish(pid, tier, seed, mod, col, info):
         'coverage': coverage, 'assumptions': list(getattr(mod, 'ASSUMPTIONS', [])),
         'wall_s': round(info['wall'], 2), 'violations': len(fresh),
     }
-    os.makedirs(os.path.join(VERIF, 'evidence'), exist_ok=True)
-    evpath = os.path.join(VERIF, 'evidence', f'{pid}.json')
+    os.makedirs(os.path.join(OUT, 'evidence'), exist_ok=True)
+    evpath = os.path.join(OUT, 'evidence', f'{pid}.json')
     txt = json.loads(jdump(ev))
     schema_error = None
     try:
